@@ -971,6 +971,52 @@ def _hoist_literals(tree: ast.Module) -> None:
         tree.body.insert(pos + k, ast.Assign(targets=[ast.Name(id=name, ctx=ast.Store())], value=node, lineno=1))
 
 
+class _Reassociate(ast.NodeTransformer):
+    """n - i - 1 -> n - 1 - i   (three-term integer chains Name - Name - const)"""
+
+    def visit_BinOp(self, node: ast.BinOp):
+        self.generic_visit(node)
+        if isinstance(node.op, (ast.Sub, ast.Add)) and isinstance(node.right, ast.Constant) and type(node.right.value) is int and isinstance(node.left, ast.BinOp) \
+                and isinstance(node.left.op, (ast.Sub, ast.Add)) and isinstance(node.left.right, (ast.Name, ast.Attribute)) and isinstance(node.left.left, (ast.Name, ast.Attribute, ast.Call)):
+            a, op1, b, op2, c = node.left.left, node.left.op, node.left.right, node.op, node.right
+            return ast.BinOp(left=ast.BinOp(left=a, op=op2, right=c), op=op1, right=b)
+        return node
+
+
+class _IndexFromFront(ast.NodeTransformer):
+    """x[-1] -> x[len(x) - 1]   (x a plain name)"""
+
+    def visit_Subscript(self, node: ast.Subscript):
+        self.generic_visit(node)
+        sl = node.slice
+        if isinstance(node.value, ast.Name) and isinstance(node.ctx, ast.Load) and isinstance(sl, ast.UnaryOp) and isinstance(sl.op, ast.USub) and isinstance(sl.operand, ast.Constant) \
+                and type(sl.operand.value) is int:
+            node.slice = ast.BinOp(left=ast.Call(func=ast.Name(id="len", ctx=ast.Load()), args=[ast.Name(id=node.value.id, ctx=ast.Load())], keywords=[]), op=ast.Sub(), right=ast.Constant(value=sl.operand.value))
+        return node
+
+
+class _ReverseKeywords(ast.NodeTransformer):
+    def visit_Call(self, node: ast.Call):
+        self.generic_visit(node)
+        if len(node.keywords) > 1 and all(k.arg is not None for k in node.keywords):
+            node.keywords = list(reversed(node.keywords))
+        return node
+
+
+def _ifexp_to_statement(tree: ast.Module) -> None:
+    """x = A if C else B   ->   if C: x = A  else: x = B     (plain name target, statement level)"""
+    for holder, field, lst in list(_stmt_lists_of(tree)):
+        new = []
+        for st in lst:
+            if isinstance(st, ast.Assign) and len(st.targets) == 1 and isinstance(st.targets[0], ast.Name) and isinstance(st.value, ast.IfExp):
+                n = st.targets[0].id
+                new.append(ast.If(test=st.value.test, body=[ast.Assign(targets=[ast.Name(id=n, ctx=ast.Store())], value=st.value.body, lineno=st.lineno)],
+                                  orelse=[ast.Assign(targets=[ast.Name(id=n, ctx=ast.Store())], value=st.value.orelse, lineno=st.lineno)], lineno=st.lineno))
+            else:
+                new.append(st)
+        setattr(holder, field, new)
+
+
 def _transformer(cls):
     def apply(tree: ast.Module) -> None:
         new = cls().visit(tree)
@@ -1019,6 +1065,10 @@ def generic_equiv(files: List[str]) -> List[Variant]:
             ("hoist-first-operand", _fix(_hoist_first_operand), "first operand of an and/or test bound to a local first"),
             ("split-or-returns", _fix(_split_or_returns), "if A or B: return X -> if A: return X; if B: return X"),
             ("hoist-literals", _fix(_hoist_literals), "Perm literals, magic integers and short strings named as module constants"),
+            ("reassociate", _transformer(_Reassociate), "n - i - 1 -> n - 1 - i"),
+            ("index-from-front", _transformer(_IndexFromFront), "x[-1] -> x[len(x) - 1]"),
+            ("reverse-keywords", _transformer(_ReverseKeywords), "keyword arguments in the opposite order"),
+            ("ifexp-to-statement", _fix(_ifexp_to_statement), "x = A if C else B -> if C: x = A else: x = B"),
             ("reverse-de-morgan", _transformer(_ReverseDeMorgan), "A or B -> not (not A and not B)"),
             ("in-to-or", _transformer(_InToOr), "x in (a, b) -> x == a or x == b"),
             ("or-to-in", _transformer(_OrToIn), "x == a or x == b -> x in (a, b)"),
